@@ -1013,6 +1013,9 @@ def probe_for(it, variant=0):
             return "fn zz_probe() -> i32\n{\n\treturn: %s[0]\n}\n" % it.name, 402
         if variant == 1:
             return "const ZZ_PROBE: %s = %s;\n" % (ty, it.name), 402
+        if ty == "i32" and variant in (2, 3):
+            # the right operand of an operator in a constant that another constant builds on
+            return "const ZZ_PROBE: i32 = 1 + %s;\nconst ZZ_PROBE2: i32 = ZZ_PROBE;\n" % it.name, 402
         if ty == "usize" and variant == 2:
             return "fn zz_probe(a: [%s]i32)\n{\n}\n" % it.name, 402
         if ty == "usize" and variant == 3:
